@@ -133,6 +133,12 @@ func vC31Owners(n int) []common.Address {
 // vC31Storage builds XIN transactions that pay for a large extra (large payload).
 func vC31Storage(t *testing.T, f *verifFeed, w *verifgen.Wallet, n, extraBytes int, tag string) []*common.VersionedTransaction {
 	xin := verifgen.Assets()[0]
+	// the whole signed transaction has to stay within the 4 MiB transaction limit (an admissible transaction is one
+	// that a peer could decode): one input, one one-key output, one signature and the length fields take about 240
+	// bytes; leave 320
+	if limit := config.TransactionMaximumSize - 320; extraBytes > limit {
+		extraBytes = limit
+	}
 	var out []*common.VersionedTransaction
 	var deps []*common.VersionedTransaction
 	var funding []*verifgen.Out
